@@ -9,6 +9,8 @@ mod c02;
 mod c03;
 #[cfg(feature = "c05")]
 mod c05;
+#[cfg(feature = "c05")]
+mod c05roc;
 #[cfg(feature = "c06")]
 mod c06;
 #[cfg(feature = "c07")]
@@ -47,6 +49,8 @@ fn registry() -> Vec<HarnessDef> {
     c03::register(&mut v);
     #[cfg(feature = "c05")]
     c05::register(&mut v);
+    #[cfg(feature = "c05")]
+    c05roc::register(&mut v);
     #[cfg(feature = "c06")]
     c06::register(&mut v);
     #[cfg(feature = "c07")]
